@@ -274,6 +274,11 @@ func init() {
 		return genParser(seed, n, tier, []string{"OSAP"}, "flags0")
 	}
 	generators["parser-runs"] = genParserRuns
+	// many nil blocks (with and without NoTrailingLiterals), blocks left
+	// unparsed while more data arrives, blocks much smaller than the chunks
+	generators["parser-nil"] = func(seed int64, n int, tier string) []Script {
+		return genParser(seed, n, tier, parserKinds, "nil")
+	}
 	// GSAP/OSAP with NoTrailingLiterals on most calls, whole buffer fills
 	// and small blocks: the parse position goes back after a block while the
 	// search structures stay (several blocks per suffix array / edge set)
@@ -294,6 +299,11 @@ func pumpOp(r *rand.Rand, data []byte, B int, style string) map[string]any {
 		"pearly": pickInt(r, 0, 10, 50), "pprobe": pickInt(r, 0, 10, 30), "pshrink": pickInt(r, 0, 5, 30),
 		"pstop": pickInt(r, 0, 0, 0, 20, 50), "reuse": r.Intn(2) == 0}
 	switch style {
+	case "nil":
+		op["pnil"] = pickInt(r, 30, 50, 70)
+		op["pstop"] = pickInt(r, 0, 30, 60)
+		op["pearly"] = pickInt(r, 30, 100)
+		op["chunk"] = pickInt(r, B/2+1, B, 40, 100)
 	case "ntl":
 		op["pnil"] = 0
 		op["pntl"] = pickInt(r, 60, 100, 100)
@@ -327,6 +337,13 @@ func genParser(seed int64, n int, tier string, kinds []string, style string) []S
 	for i := 0; i < n; i++ {
 		kind := kinds[i%len(kinds)]
 		cfg := genParserCfg(r, kind, maxB)
+		if style == "nil" {
+			cfg["BlockSize"] = pickInt(r, 3, 8, 16, 33, 64)
+			if int(num(cfg["BufferSize"])) < 64 {
+				cfg["BufferSize"] = 64 + r.Intn(140)
+				cfg["ShrinkSize"] = pickInt(r, 0, 1, int(num(cfg["BufferSize"]))-1)
+			}
+		}
 		if style == "ntl" {
 			cfg["BlockSize"] = pickInt(r, 5, 8, 13, 16, 24, 33)
 			if int(num(cfg["BufferSize"])) < 40 {
@@ -345,6 +362,14 @@ func genParser(seed int64, n int, tier string, kinds []string, style string) []S
 				cfg["WindowSize"] = int(num(cfg["BufferSize"])) + r.Intn(3)
 				if int(num(cfg["WindowSize"])) < 5 {
 					cfg["WindowSize"] = 5
+				}
+			} else if style == "nonil" {
+				// a window well inside the buffer: candidates are found and
+				// then refused by the window test, others must still be found
+				bb := int(num(cfg["BufferSize"]))
+				cfg["WindowSize"] = pickInt(r, 4, 8, 16, maxI(5, bb/4), maxI(5, bb/2))
+				if int(num(cfg["MinMatchLen"])) > int(num(cfg["WindowSize"])) {
+					cfg["MinMatchLen"] = 2
 				}
 			}
 		}
